@@ -378,7 +378,7 @@ def add_motifs(rng, g, behaviour=False):
     tn = [t for t, _ in g.terminals]
     for _ in range(rng.choice([1, 1, 2, 3])):
         m = rng.choice(['nullable_chain', 'nullable_chain', 'nullable_chain', 'unit_chain', 'opt_list', 'shared_prefix', 'shared_prefix', 'eps_alts',
-                        'prefix_loop', 'prefix_loop', 'late_merge', 'late_merge', 'wide_prefix', 'wide_prefix', 'dead_tail', 'unit_tail', 'concat_keys', 'twin_dots', 'twin_dots', 'context_family', 'context_family', 'self_embed'])
+                        'prefix_loop', 'prefix_loop', 'late_merge', 'late_merge', 'wide_prefix', 'wide_prefix', 'dead_tail', 'unit_tail', 'concat_keys', 'twin_dots', 'twin_dots', 'context_family', 'context_family', 'self_embed', 'mutual_nest', 'mutual_nest'])
         new = []
         if m == 'nullable_chain':
             k = rng.randint(2, 5)
@@ -536,6 +536,36 @@ def add_motifs(rng, g, behaviour=False):
             new.append(_mk('enum', top, alts, behaviour))
             for q, body in fam.items():
                 new.append(_mk('struct', q, [(None, ('tuple', [(False, ('T', x)) for x in body]))], behaviour))
+            head = ('N', top)
+        elif m == 'mutual_nest':
+            # Block -> Open Body | a ; Body -> Open Inner | u ; Inner -> Block c ; Open -> l : the state after `Open` has TWO kernel
+            # items and a transition on the nonterminal Open to itself; lookaheads travel from one kernel item to the other through
+            # the loop (two rounds to saturate), and the construct is reached from two contexts whose lookaheads arrive separately
+            while len(tn) < 7:
+                t = 'Tk%d' % len(tn)
+                g.terminals.append((t, rng.choice(['u32', '()'])))
+                tn.append(t)
+            a, u, c, l, k1, k2, e1 = rng.sample(tn, 7)
+            stems = rng.sample(['Block', 'Body', 'Inner', 'Open', 'Choice', 'Item', 'Zone', 'Ante', 'Mid', 'Xtra'], 6)
+            names = []
+            for st_ in stems:
+                q = _fresh_nt(g, st_)
+                g.nts.append(_mk('struct', q, [], behaviour))
+                names.append(q)
+            top = _fresh_nt(g, 'Nest')
+            del g.nts[len(g.nts) - 6:]
+            blk, bod, inn, opn, cho, itm = names
+            T = lambda x: ('T', x)
+            N = lambda x: ('N', x)
+            defs = [_mk('enum', top, [('S', _wrap(rng, [N(itm), T(e1)])), ('L', _wrap(rng, [T(k1), N(itm), T(k2)]))], behaviour),
+                    _mk('struct', itm, [(None, _wrap(rng, [T(k2), N(cho)]))], behaviour),
+                    _mk('enum', cho, [('B', _wrap(rng, [N(blk)])), ('O', _wrap(rng, [N(bod)]))], behaviour),
+                    _mk('enum', blk, [('Nest', _wrap(rng, [N(opn), N(bod)])), ('Atom', _wrap(rng, [T(a)]))], behaviour),
+                    _mk('enum', bod, [('Nest', _wrap(rng, [N(opn), N(inn)])), ('Unit', _wrap(rng, [T(u)]))], behaviour),
+                    _mk('struct', inn, [(None, _wrap(rng, [N(blk), T(c)]))], behaviour),
+                    _mk('struct', opn, [(None, _wrap(rng, [T(l)]))], behaviour)]
+            rng.shuffle(defs)
+            new += defs
             head = ('N', top)
         elif m == 'self_embed':
             # Unit -> t u next to Expr -> n | t Expr Opt u with Opt -> eps | c: after `t` the state keeps Unit -> t . u beside the
